@@ -17,13 +17,13 @@ var alpha16 = [16]byte{0x00, 0x01, 0x02, 0x03, 0x04, 0x05, 0x06, 0x07, 0x08, 0x0
 var alpha6 = [6]byte{0x00, 0x01, 0x02, 0x08, 0x36, 0xFF}
 
 const (
-	famCorpus = iota // (a) the seeds themselves (+ sanity: valid seeds decode without error)
-	famAfterHeader   // (c) all byte strings of length <= L after each of the 16 headers
-	famAfterCode     // (c) all byte strings of length <= L after each of the 8 cEMI codes
-	famTrunc         // (b) all truncations s[:k], k = 0..len
-	famExt           // (b) all extensions by 1..3 octets of alpha6
-	famSub1          // (b) all single-octet substitutions
-	famSub2          // (b) all double substitutions on structure octets: 0..255 x alpha16, ordered pairs
+	famCorpus      = iota // (a) the seeds themselves (+ sanity: valid seeds decode without error)
+	famAfterHeader        // (c) all byte strings of length <= L after each of the 16 headers
+	famAfterCode          // (c) all byte strings of length <= L after each of the 8 cEMI codes
+	famTrunc              // (b) all truncations s[:k], k = 0..len
+	famExt                // (b) all extensions by 1..3 octets of alpha6
+	famSub1               // (b) all single-octet substitutions
+	famSub2               // (b) all double substitutions on structure octets: 0..255 x alpha16, ordered pairs
 )
 
 type space struct {
